@@ -393,6 +393,21 @@ def _reshape(net):
     return True
 
 
+@inst("reshape_requant")
+def _reshape_requant(net):
+    """RESHAPE whose output quantisation differs from its input: not accepted for the NPU, so it stays a CPU operator next to accelerated ones"""
+    x = net.cur
+    t = net.T(x)
+    s = t["shape"]
+    if len(s) != 4 or t["dtype"] not in ("int8", "uint8", "int16"):
+        return False
+    new = [s[0], s[1] * s[2], 1, s[3]]
+    shp = net.const([4], "int32", "data", values=new)
+    y = net.act(new, t["dtype"], q=(net.scale(x) * 2.0, net.zp(x)))
+    net.op("RESHAPE", [x, shp], [y], ("ReshapeOptions", dict(NewShape=new)))
+    return True
+
+
 @inst("concat")
 def _concat(net):
     x = net.cur
@@ -685,7 +700,7 @@ SIGMA_Q = [
     "conv1x1", "conv3x3", "conv3x3s2", "conv3x3v_relu6", "conv3x3d2", "dw3x3", "dw3x3s2", "fc", "maxpool2x2",
     "avgpool2x2", "avgpool3x3same", "add_res", "add_const", "add_scalar", "add_bcast_h", "sub_const", "mul_const",
     "min_const", "relu", "leaky_relu", "logistic", "tanh", "hard_swish", "reshape", "concat", "split", "strided_slice",
-    "pad_hw", "pad_c", "mean", "resize_nn2", "quantize", "tconv_s2", "softmax", "cpu_d2s", "cpu_custom", "conv_dynw", "cpu_neg", "tap", "branch_cpu", "branch_npu", "conv_dynw_nobias", "cpu_custom_opt", "conv3x3_c1", "slice", "conv_again", "conv_pair_shared",
+    "pad_hw", "pad_c", "mean", "resize_nn2", "quantize", "tconv_s2", "softmax", "cpu_d2s", "cpu_custom", "conv_dynw", "cpu_neg", "tap", "branch_cpu", "branch_npu", "conv_dynw_nobias", "cpu_custom_opt", "conv3x3_c1", "slice", "conv_again", "conv_pair_shared", "reshape_requant",
 ]
 SIGMA_T = SIGMA_Q + [n for n, (_, tags) in INSTANCES.items() if "t" in tags]
 SIGMA_C = [n for n, (_, tags) in INSTANCES.items() if "c" in tags]
